@@ -397,7 +397,7 @@ func checkC09(c *Check) {
 
 	// ---- R7 the shortcut never bypasses a constrained route
 	c.Rule("R7", "shared with C10 (R1, R2, R3)", "the shortcut table dispatches without consulting header matchers, so it must hold only leaves that Headers() visits and evicts, under their own route text and method", 6)
-	c.Share("C10", []string{"R1", "R2", "R3"}, 6)
+	c.Share("C10", []string{"R1", "R2", "R3", "R6"}, 6)
 
 	// ---- R5 who may set a matcher
 	// ---- R8 a leaf is handed out as matched only through its own matcher
@@ -490,6 +490,20 @@ func checkC09(c *Check) {
 		if n < 3 {
 			c.Anchor("tree functions returning (Leaf, bool)")
 		}
+	}
+
+	// ---- R9 the constraints that are checked are the constraints that were given
+	c.Rule("R9", "E1 (shared pattern of C07.R5)", "NewHeaderMatcher keeps every entry of the map it is given: entries are not copied under a computed key (canonicalised, lower-cased), where two spellings of one header collide and one constraint is silently dropped", 1)
+	if nh := p.Fn("route", "NewHeaderMatcher"); nh != nil {
+		why := orderDependentMapLoops(nh)
+		if len(why) == 0 {
+			c.OK(p.FuncKey(nh)+":keeps-every-constraint", p.FuncPos(nh), "no re-keying of the constraint map", 1)
+		}
+		for _, w := range why {
+			c.Bad(p.FuncKey(nh)+":keeps-every-constraint", p.FuncPos(nh), w+" — a request that violates the dropped constraint makes the route eligible")
+		}
+	} else {
+		c.Anchor("route.NewHeaderMatcher")
 	}
 
 	c.Rule("R5", "E5 who-may-call", "header matchers are written only through SetHeaderMatcher, which is called only from Route.Headers (and by its own propagation)", 1)
